@@ -1,6 +1,7 @@
 /- Drive/Graph.lean — graph family: one step from the implementation's own pre-state -/
 import PjVerif.Drive.Json
 import PjVerif.Spec.Graph
+import PjVerif.Spec.GraphEff
 open Lean
 namespace Pj.Drive
 
@@ -97,6 +98,18 @@ def isReorder : Op → Bool
   | .chReorder _ _ => true
   | _ => false
 
+/-- C16: the observed post-state of an accepted call is exactly the documented effect -/
+def effectB (pre post : G) (op : Op) : Bool :=
+  match effOf pre op with
+  | some e => eqB e post
+  | none =>
+    match op with
+    | .chSort h keys rev =>
+      sortedByB (keyOf keys) rev (pre.children h) (post.children h) &&
+      eqB { pre with children := upd pre.children h (post.children h) } post
+    | .chMove h ts b a => eqB (effMove pre h ts b a) post
+    | _ => true
+
 /-- one step: {"fam":"graph","pre":state,"op":[…],"out":"ok"|"runtime"|"crash:K","post":state,
                "wbs":[{"w":uid,"tasks":[uids],"look":[[id, uid|"runtime"|…]…]}…]} -/
 def runGraphStep (j : Json) : Json :=
@@ -125,7 +138,8 @@ def runGraphStep (j : Json) : Json :=
          ("mon", boolsOut (invClauses post ++
             [("unchangedOnRaise", implErr.isNone || eqB pre post), ("tasksLookup", wbsMon),
              ("rejectIsRuntime", isReorder op || (match implErr with | some (.crash _) => false | _ => true)),
-             ("reattach", !(mustAcceptB pre op) || implErr.isNone)])),
+             ("reattach", !(mustAcceptB pre op) || implErr.isNone),
+             ("effect", implErr.isSome || effectB pre post op)])),
          ("mustAccept", .bool (mustAcceptB pre op))]
 
 def runGraph (j : Json) : Json :=
